@@ -12,7 +12,7 @@ import logging
 
 import kopf
 import vkopf
-from vkopf.driver_api import Ob, split
+from vkopf.driver_api import Ob, split, sample
 from vkopf.symloop import SymLoop
 from vkopf.world import rfc7386, rfc6902, GROUP, VERSION, PLURAL, make_resource
 
@@ -396,7 +396,7 @@ def obligations():
         obs.append(Ob('h_patch', {'key': 'a', 'pin': {'bshape': bshape, 'pshape': pshape}}, tiers=('quick',), timeout=600))
     obs.append(Ob('h_patch', {'key': 'a'}, tiers=('quick', 'thorough'), timeout=300, twins=['mutated', 'mapping_over_scalar'], main=False))
     for key in ('a', 'x/y~z'):
-        obs += split(Ob('h_patch', {'key': key}, timeout=900, tiers=('thorough',)), bshape=[0, 1, 2, 3, 4, 5], pshape=[0, 1, 2, 3, 4, 5, 6, 7, 8])
+        obs += sample(Ob('h_patch', {'key': key}, timeout=900, tiers=('thorough',)), 30, seed=180 + len(key), bshape=[0, 1, 2, 3, 4, 5], pshape=[0, 1, 2, 3, 4, 5, 6, 7, 8])
     obs += split(Ob('h_serve', {}, timeout=600, twins=['denied']), same_id=[False, True])
     obs.append(Ob('h_serve', {'exclude_known': False, 'only_f13': True, 'pin': {'same_id': True}}, expect='counterexample', finding='F13', timeout=300))
     return obs
